@@ -209,10 +209,13 @@ avx_reduce_accumulator (OrcCompiler *compiler, int i, OrcVariable *var)
   }
 
   if (var->size == 2) {
-    orc_avx_sse_emit_pextrw_memoffset (compiler, 0,
+    /* the executor slot is an int: write all of it (sum & 0xffff), as the
+     * other backends do, not just its low half */
+    orc_avx_sse_emit_pmovzxwd (compiler, src, src);
+    orc_x86_emit_mov_avx_memoffset (compiler, 4, src,
         (int)ORC_STRUCT_OFFSET (OrcExecutor,
             accumulators[i - ORC_VAR_A1]),
-        src, compiler->exec_reg);
+        compiler->exec_reg, var->is_aligned, var->is_uncached);
   } else {
     orc_x86_emit_mov_avx_memoffset (compiler, 4, src,
         (int)ORC_STRUCT_OFFSET (OrcExecutor,
